@@ -38,7 +38,7 @@ Lemma invA_step s l i s' : InvA s -> step l i s = Some s' -> InvA s'.
 Proof.
   intros [Hh Hw] H. pose proof (Hh i) as Hhi.
   unfold step in H. cbv zeta in H.
-  destruct l as [| | |q].
+  destruct l as [| | |q|q].
   - (* issue *)
     destruct (tpc (thrs s i)) eqn:Epc; try discriminate. destruct (server (thrs s i)); inversion H; subst; clear H;
     (constructor; cbn [thrs holder with_thr];
@@ -53,7 +53,7 @@ Proof.
         - intros j. thread j i; [rewrite Hp1; split; [discriminate|intros E; apply Hhi in E; discriminate]|apply Hh].
         - intros j. thread j i; [intros E; congruence|].
           intros Hj. destruct (Hw j Hj) as [h Hn]. exists h. thread h i; [rewrite Epc in Hn; discriminate|exact Hn]. }
-      destruct (myseq (thrs s i)) as [q|]; [destruct (ready s q)|]; inversion H; subst; apply G; (reflexivity || discriminate).
+      destruct (myseq (thrs s i)) as [q|]; [destruct (ready s q); [|destruct (expd s q)]|]; inversion H; subst; apply G; (reflexivity || discriminate).
     + (* S1 *)
       assert (Hl : (exists h, holder s = Some h) \/ holder s = None) by (destruct (holder s); eauto).
       destruct Hl as [(h & El)|El]; rewrite El in H at 1; inversion H; subst; clear H; constructor; cbn [thrs holder with_thr].
@@ -95,6 +95,8 @@ Proof.
     + intros j. thread j i; [discriminate|]. intros _. exists i. rewrite upd_same. reflexivity.
   - (* the peer answers *)
     destruct (ph s q); try discriminate. inversion H; subst; clear H. constructor; cbn [thrs holder]; auto.
+  - (* the clock passes an expiry *)
+    inversion H; subst; clear H. constructor; cbn [thrs holder]; auto.
 Qed.
 
 Theorem invA_reach sv s : reach (init sv) s -> InvA s.
@@ -111,7 +113,8 @@ Record InvB (s : st) : Prop := {
   B_fresh : forall q, counter s <= q <-> ph s q = PNone;
   B_pend  : forall q, (pending s q = None <-> (ph s q = PNone \/ ph s q = PDone))
                       /\ forall t, pending s q = Some t -> myseq (thrs s t) = Some q;
-  B_ready : forall q, ready s q = true <-> ph s q = PDone;
+  B_ready : forall q, ready s q = true <-> (ph s q = PDone /\ late s q = false);
+  B_late  : forall q, late s q = true -> ph s q = PDone /\ expd s q = true;
   B_disp  : NoDup (dispatched s) /\ forall q, In q (dispatched s) <-> ph s q = PDone;
   B_seq   : (forall i q, myseq (thrs s i) = Some q -> q < counter s)
             /\ forall i j q, myseq (thrs s i) = Some q -> myseq (thrs s j) = Some q -> i = j;
@@ -124,7 +127,7 @@ Proof.
   - split; [constructor|]. intros q. split; [tauto|discriminate].
   - intros q. split; [reflexivity|intros; lia].
   - intros q. split; [split; [auto|reflexivity]|intros; discriminate].
-  - intros q. split; intros; discriminate.
+  - intros q. split; [discriminate|intros [X _]; discriminate].
   - split; [constructor|]. intros q. split; [tauto|discriminate].
   - split; intros; discriminate.
   - reflexivity.
@@ -138,9 +141,9 @@ Lemma invB_pcs s thrs' hl :
   (forall j, tpc (thrs' j) = S5 -> hand (thrs s j) <> None) ->
   (forall j, tpc (thrs' j) = Idle -> tpc (thrs s j) = Idle) ->
   InvB {| thrs := thrs'; counter := counter s; pending := pending s; inbox := inbox s; holder := hl;
-          ready := ready s; dispatched := dispatched s; ph := ph s |}.
+          ready := ready s; dispatched := dispatched s; ph := ph s; expd := expd s; late := late s |}.
 Proof.
-  intros [H1 H2 H5 Hi Hf Hp Hr Hd Hs Hid] Hsame Hc H5' Hidle. constructor; cbn [thrs counter pending inbox holder ready dispatched ph]; auto.
+  intros [H1 H2 H5 Hi Hf Hp Hr Hl Hd Hs Hid] Hsame Hc H5' Hidle. constructor; cbn [thrs counter pending inbox holder ready dispatched ph expd late]; auto.
   - intros i q Hh. destruct (Hsame i) as [_ E]. rewrite E in Hh. split; [apply (H1 i q Hh)|]. apply Hc. congruence.
   - intros q i Hq. destruct (Hsame i) as [_ E]. rewrite E. now apply H2.
   - intros i Hi5. destruct (Hsame i) as [_ E]. rewrite E. now apply H5'.
@@ -159,9 +162,9 @@ Qed.
 
 Lemma invB_step s l i s' : InvB s -> step l i s = Some s' -> InvB s'.
 Proof.
-  intros I H. pose proof I as [H1 H2 H5 Hi Hf Hp Hr Hd Hs Hid].
+  intros I H. pose proof I as [H1 H2 H5 Hi Hf Hp Hr Hl Hd Hs Hid].
   unfold step in H. cbv zeta in H.
-  destruct l as [| | |q].
+  destruct l as [| | |q|q].
   - (* issue *)
     destruct (tpc (thrs s i)) eqn:Epc; try discriminate.
     assert (Hn : hand (thrs s i) = None) by (apply (hand_none_not_carrying s i I); rewrite Epc; reflexivity).
@@ -175,7 +178,7 @@ Proof.
     + (* a client issues request number [counter s] *)
       set (q := counter s).
       assert (Hq : ph s q = PNone) by (apply Hf; lia).
-      constructor; cbn [thrs counter pending inbox holder ready dispatched ph].
+      constructor; cbn [thrs counter pending inbox holder ready dispatched ph expd late].
       * intros j r. thread j i; [discriminate|]. intros Hh. destruct (H1 j r Hh) as [A B]. split; [|exact B].
         unfold upd. destruct (Nat.eqb_spec r q); [subst; congruence|exact A].
       * intros r j. unfold upd at 1. destruct (Nat.eqb_spec r q); [discriminate|]. intros Hr'. thread j i; [|now apply H2].
@@ -191,7 +194,8 @@ Proof.
         -- rewrite !upd_same. split; [split; [discriminate|intros [X|X]; discriminate]|]. intros t Ht. injection Ht as <-. now rewrite upd_same.
         -- rewrite !upd_other by assumption. destruct (Hp r) as [Pa Pb]. split; [exact Pa|]. intros t Ht. thread t i; [|now apply Pb].
            apply Pb in Ht. rewrite (Hid i Epc) in Ht. discriminate.
-      * intros r. unfold upd. destruct (Nat.eqb_spec r q); [subst; rewrite Hr, Hq; split; discriminate|apply Hr].
+      * intros r. unfold upd. destruct (Nat.eqb_spec r q); [subst; rewrite Hr, Hq; split; intros [X _]; discriminate|apply Hr].
+      * intros r Hlr. destruct (Hl r Hlr) as [A B]. split; [|exact B]. unfold upd. destruct (Nat.eqb_spec r q); [subst; congruence|exact A].
       * destruct Hd as [Hd1 Hd2]. split; [exact Hd1|]. intros r. unfold upd. destruct (Nat.eqb_spec r q); [subst; rewrite Hd2, Hq; split; discriminate|apply Hd2].
       * destruct Hs as [Hs1 Hs2]. split.
         -- intros j r. thread j i; [intros [= <-]; fold q; lia|]. intros Hm. apply Hs1 in Hm. lia.
@@ -210,7 +214,7 @@ Proof.
         - intros j. thread j i; [congruence|]. intros Hh. destruct (hand (thrs s j)) as [r0|] eqn:E; [|congruence]. apply (H1 j r0 E).
         - intros j. thread j i; [congruence|apply H5].
         - intros j. thread j i; [intros X; exfalso; apply HpI; exact X|auto]. }
-      destruct (myseq (thrs s i)) as [q|]; [destruct (ready s q)|]; inversion H; subst; apply G; discriminate.
+      destruct (myseq (thrs s i)) as [q|]; [destruct (ready s q); [|destruct (expd s q)]|]; inversion H; subst; apply G; discriminate.
     + (* S1 *)
       assert (Hn : hand (thrs s i) = None) by (apply (hand_none_not_carrying s i I); rewrite Epc; reflexivity).
       destruct (holder s); inversion H; subst; clear H; (apply invB_pcs; auto;
@@ -224,7 +228,7 @@ Proof.
       destruct Hi as [Hn1 Hn2].
       assert (Hq : ph s q = PIn) by (apply Hn2; now left).
       inversion Hn1 as [|? ? Hnotin Hnd]; subst.
-      constructor; cbn [thrs counter pending inbox holder ready dispatched ph].
+      constructor; cbn [thrs counter pending inbox holder ready dispatched ph expd late].
       * intros j r. thread j i.
         -- intros [= <-]. now rewrite upd_same.
         -- intros Hh. destruct (H1 j r Hh) as [A B]. split; [|exact B]. unfold upd. destruct (Nat.eqb_spec r q); [subst; congruence|exact A].
@@ -239,7 +243,8 @@ Proof.
       * intros r. destruct (Hp r) as [Pa Pb]. split.
         -- unfold upd. destruct (Nat.eqb_spec r q); [subst; rewrite Pa, Hq; split; [intros [X|X]; discriminate|intros [X|X]; discriminate]|exact Pa].
         -- intros t Ht. thread t i; now apply Pb.
-      * intros r. unfold upd. destruct (Nat.eqb_spec r q); [subst; rewrite Hr, Hq; split; discriminate|apply Hr].
+      * intros r. unfold upd. destruct (Nat.eqb_spec r q); [subst; rewrite Hr, Hq; split; intros [X _]; discriminate|apply Hr].
+      * intros r Hlr. destruct (Hl r Hlr) as [A B]. split; [|exact B]. unfold upd. destruct (Nat.eqb_spec r q); [subst; congruence|exact A].
       * destruct Hd as [Hd1 Hd2]. split; [exact Hd1|]. intros r. unfold upd. destruct (Nat.eqb_spec r q); [subst; rewrite Hd2, Hq; split; discriminate|apply Hd2].
       * destruct Hs as [Hs1 Hs2]. split.
         -- intros j r. thread j i; apply Hs1.
@@ -267,7 +272,7 @@ Proof.
     + (* S5: dispatch *)
       destruct (hand (thrs s i)) as [q|] eqn:Eh; [|discriminate]. inversion H; subst; clear H.
       destruct (H1 i q Eh) as [Hq _].
-      constructor; cbn [thrs counter pending inbox holder ready dispatched ph].
+      constructor; cbn [thrs counter pending inbox holder ready dispatched ph expd late].
       * intros j r. thread j i; [discriminate|]. intros Hh. destruct (H1 j r Hh) as [A B]. split; [|exact B].
         unfold upd. destruct (Nat.eqb_spec r q); [subst; congruence|exact A].
       * intros r j. unfold upd at 1. destruct (Nat.eqb_spec r q); [discriminate|]. intros Hr'. thread j i; [|now apply H2].
@@ -280,7 +285,19 @@ Proof.
         -- rewrite !upd_other by assumption. destruct (Hp r) as [Pa Pb]. split; [exact Pa|]. intros t Ht. thread t i; now apply Pb.
       * intros r. assert (Hpq : pending s q <> None).
         { destruct (Hp q) as [Pa _]. rewrite Pa, Hq. intros [X|X]; discriminate. }
-        destruct (pending s q) as [o|]; [|congruence]. unfold upd. destruct (Nat.eqb_spec r q); [subst; split; reflexivity|apply Hr].
+        assert (Hrq : ready s q = false).
+        { destruct (ready s q) eqn:E; [|reflexivity]. apply Hr in E. destruct E as [E _]. congruence. }
+        assert (Hlq : late s q = false).
+        { destruct (late s q) eqn:E; [|reflexivity]. apply Hl in E. destruct E as [E _]. congruence. }
+        destruct (pending s q) as [o|]; [|congruence]. destruct (Nat.eq_dec r q) as [->|Hne].
+        -- rewrite upd_same. destruct (expd s q); [rewrite upd_same, Hrq; split; [discriminate|intros [_ X]; discriminate]
+                                                  |rewrite upd_same, Hlq; split; [auto|reflexivity]].
+        -- rewrite (upd_other (ph s)) by assumption. destruct (expd s q); rewrite ?upd_other by assumption; apply Hr.
+      * intros r. assert (Hlq : late s q = false).
+        { destruct (late s q) eqn:E; [|reflexivity]. apply Hl in E. destruct E as [E _]. congruence. }
+        destruct (Nat.eq_dec r q) as [->|Hne].
+        -- rewrite upd_same. destruct (expd s q) eqn:Ee; [intros _; split; reflexivity|rewrite Hlq; discriminate].
+        -- rewrite (upd_other (ph s)) by assumption. destruct (expd s q); rewrite ?upd_other by assumption; apply Hl.
       * destruct Hd as [Hd1 Hd2]. split.
         -- apply NoDup_app_one; [exact Hd1|]. rewrite Hd2, Hq. discriminate.
         -- intros r. rewrite in_app_iff. unfold upd. destruct (Nat.eqb_spec r q).
@@ -305,7 +322,7 @@ Proof.
       * intros j. thread j i; [discriminate|auto].
   - (* the peer answers request q *)
     destruct (ph s q) eqn:Hq; try discriminate. inversion H; subst; clear H.
-    constructor; cbn [thrs counter pending inbox holder ready dispatched ph]; auto.
+    constructor; cbn [thrs counter pending inbox holder ready dispatched ph expd late]; auto.
     + intros j r Hh. destruct (H1 j r Hh) as [A B]. split; [|exact B]. unfold upd. destruct (Nat.eqb_spec r q); [subst; congruence|exact A].
     + intros r j. unfold upd. destruct (Nat.eqb_spec r q); [discriminate|apply H2].
     + destruct Hi as [Hn1 Hn2]. split.
@@ -316,8 +333,12 @@ Proof.
     + intros r. unfold upd. destruct (Nat.eqb_spec r q); [subst; rewrite Hf, Hq; split; discriminate|apply Hf].
     + intros r. destruct (Hp r) as [Pa Pb]. split; [|exact Pb].
       unfold upd. destruct (Nat.eqb_spec r q); [subst; rewrite Pa, Hq; split; [intros [X|X]; discriminate|intros [X|X]; discriminate]|exact Pa].
-    + intros r. unfold upd. destruct (Nat.eqb_spec r q); [subst; rewrite Hr, Hq; split; discriminate|apply Hr].
+    + intros r. unfold upd. destruct (Nat.eqb_spec r q); [subst; rewrite Hr, Hq; split; intros [X _]; discriminate|apply Hr].
+    + intros r Hlr. destruct (Hl r Hlr) as [A B]. split; [|exact B]. unfold upd. destruct (Nat.eqb_spec r q); [subst; congruence|exact A].
     + destruct Hd as [Hd1 Hd2]. split; [exact Hd1|]. intros r. unfold upd. destruct (Nat.eqb_spec r q); [subst; rewrite Hd2, Hq; split; discriminate|apply Hd2].
+  - (* the clock passes the expiry of request q *)
+    inversion H; subst; clear H. constructor; cbn [thrs counter pending inbox holder ready dispatched ph expd late]; auto.
+    intros r Hlr. destruct (Hl r Hlr) as [A B]. split; [exact A|]. unfold upd. destruct (Nat.eqb r q); [reflexivity|exact B].
 Qed.
 
 Theorem invB_reach sv s : reach (init sv) s -> InvB s.
@@ -366,7 +387,7 @@ Proof.
   { intros h Hh. unfold step. destruct (tpc (thrs s h)) eqn:E; try discriminate; eauto.
     destruct (inbox s); [congruence|eauto]. }
   destruct (tpc (thrs s i)) eqn:E; try discriminate.
-  - exists i. unfold step. rewrite E. destruct (myseq (thrs s i)); [destruct (ready s n)|]; eauto.
+  - exists i. unfold step. rewrite E. destruct (myseq (thrs s i)); [destruct (ready s n); [|destruct (expd s n)]|]; eauto.
   - exists i. unfold step. rewrite E. destruct (holder s); eauto.
   - destruct (A_wake s IA i E) as [h Hh]. exists h. apply G. exact Hh.
   - exists i. apply G. now rewrite E.
@@ -377,10 +398,10 @@ Qed.
 
 (* C14: the only places where a waiter whose reply has already been processed can still be held up *)
 Theorem blocked_only_in_window s w q : InvA s -> InvB s ->
-  myseq (thrs s w) = Some q -> ready s q = true -> tpc (thrs s w) <> Returned -> step LStep w s = None ->
+  myseq (thrs s w) = Some q -> ready s q = true -> tpc (thrs s w) <> Returned -> tpc (thrs s w) <> TimedOut -> step LStep w s = None ->
   (tpc (thrs s w) = S2 /\ inbox s = []) \/ (tpc (thrs s w) = Asleep /\ exists h, will_notify (tpc (thrs s h)) = true).
 Proof.
-  intros IA IB Hm Hr Hnr Hb. unfold step in Hb. destruct (tpc (thrs s w)) eqn:E; try congruence.
+  intros IA IB Hm Hr Hnr Hnt Hb. unfold step in Hb. destruct (tpc (thrs s w)) eqn:E; try congruence.
   - pose proof (B_idle s IB w E). congruence.
   - rewrite Hm, Hr in Hb. discriminate.
   - destruct (holder s); discriminate.
@@ -388,3 +409,41 @@ Proof.
   - left. split; [reflexivity|]. destruct (inbox s); [reflexivity|discriminate].
   - pose proof (B_s5 s IB w E). destruct (hand (thrs s w)); [discriminate|congruence].
 Qed.
+
+(* ---- group D: expiry. The clock only moves on; a wait gives up only after its own expiry with the cell not ready - and then
+   the cell never becomes ready (a reply dispatched after the expiry is dropped) ---- *)
+Lemma step_expd_mono s l i s' q : step l i s = Some s' -> expd s q = true -> expd s' q = true.
+Proof.
+  intros H He. unfold step in H. cbv zeta in H.
+  destruct l; repeat match type of H with context [match ?x with _ => _ end] => destruct x; try discriminate end;
+  inversion H; subst; cbn [expd with_thr]; auto.
+  unfold upd. destruct (Nat.eqb q s0); auto.
+Qed.
+Definition InvD (s : st) : Prop :=
+  forall i, tpc (thrs s i) = TimedOut -> exists q, myseq (thrs s i) = Some q /\ expd s q = true /\ ready s q = false.
+Lemma ready_needs_fresh s l i s' q : step l i s = Some s' -> expd s q = true -> ready s q = false -> ready s' q = false.
+Proof.
+  intros H He Hr. unfold step in H. cbv zeta in H.
+  destruct l; repeat match type of H with context [match ?x with _ => _ end] => destruct x eqn:?; try discriminate end;
+  inversion H; subst; cbn [ready with_thr]; auto.
+  unfold upd. destruct (Nat.eqb_spec q n); [subst; congruence|auto].
+Qed.
+Lemma invD_step s l i s' : InvD s -> step l i s = Some s' -> InvD s'.
+Proof.
+  intros I H j Hj.
+  assert (Hcase : (tpc (thrs s j) = TimedOut /\ myseq (thrs s' j) = myseq (thrs s j))
+                  \/ (exists q, myseq (thrs s' j) = Some q /\ expd s q = true /\ ready s q = false)).
+  { unfold step in H. cbv zeta in H.
+    destruct l; repeat match type of H with context [match ?x with _ => _ end] => destruct x eqn:?; try discriminate end;
+    inversion H; subst; clear H; cbn [thrs with_thr] in Hj |- *;
+    (destruct (Nat.eq_dec j i) as [->|Hne]; [rewrite ?upd_same in *|rewrite ?upd_other in * by assumption]);
+    cbn [tpc myseq set_pc] in *; try discriminate; try (left; split; [assumption|reflexivity]);
+    try (right; eexists; repeat split; eauto; fail).
+    all: try (rewrite wake_pc in Hj; left; split; [destruct (tpc (thrs s j)); try discriminate; reflexivity|unfold wake; destruct (tpc (thrs s j)); reflexivity]).
+    all: try (destruct (hand (thrs s i)); discriminate). }
+  destruct Hcase as [[Ht Hm]|(q & Hm & He & Hr)].
+  - destruct (I j Ht) as (q & Hq & He & Hr). exists q. split; [congruence|]. split; [eapply step_expd_mono; eauto|eapply ready_needs_fresh; eauto].
+  - exists q. split; [exact Hm|]. split; [eapply step_expd_mono; eauto|eapply ready_needs_fresh; eauto].
+Qed.
+Theorem invD_reach sv s : reach (init sv) s -> InvD s.
+Proof. intros R. induction R; [intros i; cbn; discriminate|eauto using invD_step]. Qed.
